@@ -235,6 +235,8 @@ def _formula_cases(tier, rng):
         ('=ISERROR(UNDEF_A)', {}, True), ('=IF(ISERROR(UNDEF_A),1,2)+IF(ISERROR(UNDEF_B),10,20)', {}, 11),
         ('=IFERROR(UNDEF_A,1)+IFERROR(UNDEF_B,1)', {}, 2), ('=IF(FALSE,UNDEF_A,UNDEF_B)', {}, REF),
         ('=#REF!+1', {}, REF), ('=IFERROR(#REF!,4)', {}, 4), ('=ISERROR(#REF!)', {}, True),
+        # references into a deleted sheet, as Excel rewrites them
+        ('=#REF!A1+1', {}, REF), ('=IFERROR(#REF!$A$1,4)', {}, 4), ('=SUM(#REF!A1:B2)', {}, REF), ('=ISERROR(#REF!A:A)', {}, True),
     ]
 
 
@@ -248,6 +250,7 @@ FAULTS = [
     ('=_xlfn.FUTUREFN(A1,2)', ('#NAME?',)),          # unknown function with the _xlfn. prefix
     ('=UNDEFINED_NAME+1', ('#REF!', '#NAME?')),      # undefined name
     ("='[bad.xlsx]S'!A1", ('#REF!',)),               # workbook file present but unreadable (not a zip archive)
+    ('=#REF!A1+1', ('#REF!',)),                      # reference into a deleted sheet, as Excel rewrites it
 ]
 
 
@@ -339,7 +342,7 @@ def _names(mask):
 
 BOUNDED = [
     Stage('B2:every-subset-of-faults-injected-into-a-workbook', 'C14', _fault_cases, _check_faults,
-          'all 128 subsets of 7 faults (absent sheet, absent sheet of a readable linked workbook, absent file, unreadable file, unknown '
+          'all 256 subsets of 8 faults (absent sheet, absent sheet of a readable linked workbook, absent file, unreadable file, unknown '
           'function, _xlfn. function, undefined name) injected into a workbook with a linked workbook: loads and calculates, healthy cells keep their values, '
           'faulty cells hold an error that IFERROR / ISERROR intercept and arithmetic propagates', parallel=True, weight=lambda c: 1),
     Stage('B1:single-formulas-with-unresolved-items', 'C14', _formula_cases, _check_formula,
